@@ -39,6 +39,8 @@ pub struct Spec {
     pub timeout_s: Option<u64>,
     /// connect stdout to this file instead of a pipe (e.g. /dev/full: every write fails)
     pub stdout_to: Option<String>,
+    /// extra arguments as raw bytes, appended after `args` (argv that is not valid UTF-8)
+    pub raw_args: Vec<Vec<u8>>,
 }
 
 pub const BASE_PATH: &str = "/usr/local/sbin:/usr/local/bin:/usr/sbin:/usr/bin:/sbin:/bin";
@@ -48,6 +50,10 @@ pub fn run(spec: &Spec) -> Out {
     let bin = spec.bin.clone().unwrap_or_else(zerv_bin);
     let mut cmd = Command::new(bin);
     cmd.args(&spec.args);
+    for a in &spec.raw_args {
+        use std::os::unix::ffi::OsStrExt;
+        cmd.arg(std::ffi::OsStr::from_bytes(a));
+    }
     cmd.env_clear();
     cmd.env("PATH", spec.path.clone().unwrap_or_else(|| BASE_PATH.to_string()));
     cmd.env("HOME", "/nonexistent");
@@ -58,10 +64,18 @@ pub fn run(spec: &Spec) -> Out {
     cmd.env("GIT_CONFIG_NOSYSTEM", "1");
     cmd.env("PAGER", "cat");
     for (k, v) in &spec.env {
+        // "\0HEX:<hex>" stands for raw bytes (names and values that are not valid UTF-8)
+        let raw = |t: &str| -> std::ffi::OsString {
+            use std::os::unix::ffi::OsStringExt;
+            match t.strip_prefix("\u{0}HEX:") {
+                Some(h) => std::ffi::OsString::from_vec((0..h.len() / 2).filter_map(|i| u8::from_str_radix(&h[2 * i..2 * i + 2], 16).ok()).collect()),
+                None => t.into(),
+            }
+        };
         if v == "\u{0}UNSET" {
             cmd.env_remove(k);
         } else {
-            cmd.env(k, v);
+            cmd.env(raw(k), raw(v));
         }
     }
     if let Some(c) = &spec.cwd {
